@@ -755,3 +755,38 @@ Theorem client_going_away_touches_no_other_request :
   /\ PromReq.run true rs_init w_trace_client_gone = [(0, Some 0, false); (1, Some 0, false); (0, Some 0, true); (1, Some 0, true)]%N.
 Proof. exact client_gone_witness. Qed.
 Print Assumptions client_going_away_touches_no_other_request.
+
+(* ---------------- Round 7 (seed C17-g): label sets stored under SEVERAL fingerprints ----------------
+   PromSelDup.select_dup_exact_ok is the oracle the check applies to every series set observed from the real Select when a
+   label set is shared by several fingerprints (ReshuffleSeries' merge branch; also fingerprints without a labels row,
+   which all get {}).  What acceptance means, for EVERY row list, labels answer and observed series set: *)
+From Qryn Require Import model.PromSelDup proofs.PromSelDupProofs.
+
+(* every series handed to the engine carries only samples that are rows of a fingerprint stored under ITS OWN label set *)
+Theorem accepted_series_carry_only_their_own_rows : forall rows fetch obs,
+  select_dup_exact_ok false rows fetch obs = true ->
+  forall o smp, List.In o obs -> List.In smp (o_samples o) ->
+  exists r, List.In r rows /\ labels_get fetch (r_fp r) = o_labels o /\ (r_ts r, r_val r) = smp.
+Proof. exact accepted_series_carry_only_their_own_rows_lemma. Qed.
+Print Assumptions accepted_series_carry_only_their_own_rows.
+
+(* and every row reaches the engine inside the series of its fingerprint's label set *)
+Theorem accepted_answers_lose_no_row : forall rows fetch obs,
+  select_dup_exact_ok false rows fetch obs = true ->
+  forall r, List.In r rows ->
+  exists o, List.In o obs /\ o_labels o = labels_get fetch (r_fp r) /\ List.In (r_ts r, r_val r) (o_samples o).
+Proof. exact accepted_answers_lose_no_row_lemma. Qed.
+Print Assumptions accepted_answers_lose_no_row.
+
+(* seed C17-g (Select reads all rows into ONE sample buffer, ReshuffleSeries' append writes over the rows of the series
+   behind the first fingerprint) on its witness - label set X under fingerprints 11 and 33, Y under 22 between them: the
+   counting oracle of rounds 1..6 accepts what the seed hands to the engine, the exact oracle rejects it (series Y carries
+   the sample 302@2500 whose only row belongs to X), and accepts the model's series set (non-vacuity of the two theorems) *)
+Theorem shared_sample_buffer_refuted :
+  select_dup_ok false dupw_rows dupw_fetch dupw_obs_shared_buffer = true
+  /\ select_dup_exact_ok false dupw_rows dupw_fetch dupw_obs_shared_buffer = false
+  /\ select_dup_exact_ok false dupw_rows dupw_fetch (select_series false dupw_rows dupw_fetch) = true
+  /\ (exists o, List.In o dupw_obs_shared_buffer /\ o_labels o = dupw_y /\ List.In (2500, 302)%Z (o_samples o)
+                /\ forall r, List.In r dupw_rows -> (r_ts r, r_val r) = (2500, 302)%Z -> labels_get dupw_fetch (r_fp r) = dupw_x).
+Proof. exact shared_sample_buffer_witness. Qed.
+Print Assumptions shared_sample_buffer_refuted.
